@@ -9,6 +9,7 @@
   the oracle (exact fractions) only.
 -/
 import BartiqModel.Aggregate
+import BartiqProofs.AggLemmas
 import Mathlib.Algebra.Ring.Defs
 import Mathlib.Tactic.Ring
 namespace Bartiq
@@ -134,11 +135,6 @@ theorem C15_decomposed_kept_as_other (exp : AggDict) (agg : List Resource) (r : 
 
 variable {R : Type} [CommSemiring R]
 
-/-- an interpretation of expressions that respects + and × -/
-structure RingEval (ev : Expr → R) : Prop where
-  add : ∀ a b, ev (.bin .add a b) = ev a + ev b
-  mul : ∀ a b, ev (.bin .mul a b) = ev a * ev b
-
 /-- value of the resource named `b` in a resource list (0 if absent) -/
 def valOf (ev : Expr → R) (rs : List Resource) (b : String) : R :=
   match Resource.find? rs b with
@@ -225,5 +221,36 @@ theorem C15_linear_contribution (ev : Expr → R) (hev : RingEval ev) (r : Resou
       · have hs := find?_set_other agg { cur with value := .bin .add cur.value (.bin .mul v r.value) } b hb
         rw [hs]
         simp only [List.filter_cons, hb, decide_false, Bool.false_eq_true, if_false]
+
+/-! ### nested dictionaries are fully expanded: the path-sum recurrence -/
+
+/-- **expansion = sum over all decomposition paths**, stated as the recurrence that defines that sum: in the expanded
+    dictionary every decomposed resource `r` maps only to base resources, each once, and gives base resource `b` the weight
+        W(r,b) = w(r,b) + Σ_{t decomposed target of r} w(r,t) · W(t,b)
+    — for every interpretation of the multipliers in a commutative semiring.
+    PARTIAL in one respect: the order returned by the model of `_topological_sort` (Kahn's algorithm, BartiqModel/Graph.lean) is
+    assumed to list each decomposed resource once and after the ones it is decomposed into (`topoOK`, an executable check that the
+    driver evaluates on every dictionary of every run and reports next to the result). -/
+theorem C15_expansion_is_path_sum_partial (ev : Expr → R) (hev : RingEval ev) (d : AggDict)
+    (hD : ∀ r, ((d.get? r).getD []).keys.Nodup) (order : List String)
+    (ho : aggOrder d = some order) (ht : topoOK d [] order = true) :
+    ∃ E, expandAggregation d = .ok E ∧ ∀ r ∈ order, Expanded ev d E r := by
+  refine ⟨_, expandAggregation_eq d order ho, ?_⟩
+  have := expFold_spec ev hev d hD order [] [] ht (by intro r hr; cases hr) (by intro r m h; cases h) (by intro r hr; cases hr)
+  simpa using this
+
+/-- the entry order inside each decomposition is irrelevant for the weights: they are determined by the recurrence alone, which
+    only looks values up by name (`dval`) -/
+theorem C15_weights_determined (ev : Expr → R) (d E E' : AggDict) (r b : String)
+    (h : ∀ t, ((E.get? t).getD []) = ((E'.get? t).getD [])) : viaDecomposed ev d E r b = viaDecomposed ev d E' r b := by
+  unfold viaDecomposed
+  congr 1
+  apply List.map_congr_left
+  intro t _
+  rw [h t]
+
+-- non-vacuity: A → {B: 2, X: 3}, B → {X: 5}; the order [B, A] is accepted by the check, [A, B] is not
+example : topoOK [("A", [("B", .num 2), ("X", .num 3)]), ("B", [("X", .num 5)])] [] ["B", "A"] = true ∧
+    topoOK [("A", [("B", .num 2), ("X", .num 3)]), ("B", [("X", .num 5)])] [] ["A", "B"] = false := by decide
 
 end Bartiq
